@@ -44,6 +44,11 @@ impl SWCurveConfig for Config {
         p: &bn::G1Projective<crate::Config>,
         scalar: &[u64],
     ) -> bn::G1Projective<crate::Config> {
+        // `from_sign_and_limbs` accepts at most as many limbs as the scalar field has;
+        // longer slices (e.g. with leading zero limbs) take the generic path.
+        if scalar.len() > Self::ScalarField::MODULUS.0.len() {
+            return ark_ec::scalar_mul::sw_double_and_add_projective(p, scalar);
+        }
         let s = Self::ScalarField::from_sign_and_limbs(true, scalar);
         GLVConfig::glv_mul_projective(*p, s)
     }
